@@ -201,7 +201,11 @@ fn step_like(w: &mut World, c: *mut TsRunContext, run: bool) -> String {
         TsRunStepStatus::Error => format!("error:{}", cstr(r.error).split(':').next().unwrap_or("")),
     };
     tsrun_step_result_free(&mut r);
-    s
+    // a released result holds nothing any more: every array pointer is NULL and every count 0 ...
+    let stale = !r.imports.is_null() || r.import_count != 0 || !r.pending_orders.is_null() || r.pending_count != 0 || !r.cancelled_orders.is_null() || r.cancelled_count != 0;
+    // ... so releasing it again (a host's cleanup path after an early release) touches no memory
+    tsrun_step_result_free(&mut r);
+    if stale { format!("{} STALE-FIELDS", s) } else { s }
 }
 
 /// line: JSON array of ops (each an array: name, args…)
